@@ -27,11 +27,13 @@ rm -rf "$wt"
 echo "confirmation:${res:- ok (applies, builds, suite passes, demo fails with and passes without)}"
 # checks against /repo
 if git -C /repo apply "$seed/patch.diff"; then
+  ev=$(mktemp -d /tmp/seedev-XXXX); cp /verif/known_findings.json "$ev/"
   for p in "$@"; do
-    out=$(/verif/check "$p" quick 2>&1); rc=$?
+    out=$(/verif/bin/fitcheck -prop "$p" -tier quick -repo /repo -verif "$ev" 2>&1); rc=$?
     echo "--- $p rc=$rc"
     echo "$out" | grep -E "^VIOLATION|: C[0-9]+-|^C[0-9]+ tier" | cut -c1-260 | head -12
   done
+  rm -rf "$ev"
   git -C /repo checkout -- .
   git -C /repo status --short | head -3
 else
